@@ -164,7 +164,7 @@ def m_vec_push(E, st, fr, bi, callee, args, dest_ty):
     newlen = E.binop(st, "Add", s.len, one, E.ctx.usize_ty(), False)
     if ln == 0 and not s.head:
         new = Sq(args[1], newlen, {0: args[1]}, None)
-    elif ln is not None and ln < 64 and s.head and len(s.head) == ln:
+    elif ln is not None and ln < max(64, E.ctx.hooks.get("keep_heads_max", 64)) and s.head and len(s.head) == ln:
         h = dict(s.head)
         h[ln] = args[1]
         new = Sq(E.join_vals(st, s.elem, args[1]), newlen, h, None)
@@ -1299,6 +1299,31 @@ def m_iter_sum(E, st, fr, bi, callee, args, dest_ty):
         raise Unsupported("sum of non-int")
     lo, hi = st.itv[item.vid]
     E.ctx.emit("sum", frame=fr, bb=bi, item=item, n=n, st=st)
+    c = st.const(n)
+    if c is not None and 1 <= c <= 64 and E.ctx.hooks.get("exact_int_sum"):
+        # exact small case (rule-enabled): add the terms in order
+        cur, s, acc = it, st, None
+        okk = True
+        with pinned(E.ctx, n, it):
+            for _ in range(c):
+                with pinned(E.ctx, cur, acc):
+                    outs = [o for o in it_next(E, s, fr, bi, cur) if o[0] is not None]
+                if len(outs) != 1:
+                    okk = False
+                    break
+                x, cur, s = outs[0]
+                if type(x) is Pt:
+                    x = deref(E, s, x)
+                if type(x) is not I:
+                    okk = False
+                    break
+                with pinned(E.ctx, cur, acc, x):
+                    acc = x if acc is None else E.binop(s, "Add", acc, x, dest_ty, False)
+        if okk and acc is not None:
+            alo, ahi = s.itv[acc.vid]
+            tlo, thi = t.int_range()
+            obligation(E, fr, bi, "Overflow", tlo <= alo and ahi <= thi, f"sum of {c} terms", "Iterator::sum")
+            return ret1(acc, s)
     nlo, nhi = st.itv[n.vid]
     cands = [lo * nlo, lo * nhi, hi * nlo, hi * nhi]
     slo, shi = min(cands + [0] if nlo == 0 else cands), max(cands + [0] if nlo == 0 else cands)
@@ -1326,6 +1351,8 @@ def m_iter_fold(E, st, fr, bi, callee, args, dest_ty):
     n = it_len(E, st, it)
     c = st.const(n)
     if c is None or c > max(64, E.ctx.hooks.get("exact_collect_max", 64)):
+        if is_for_each:
+            return _for_each_fix(E, st, fr, bi, it, fn_arg, fty)
         return None
     states = [((UNIT if is_for_each else args[1]), it, st)]
     # no case splits on bool-to-int casts inside the step function unless the rule works with known bits: the
@@ -1337,6 +1364,32 @@ def m_iter_fold(E, st, fr, bi, callee, args, dest_ty):
         return _fold_steps(E, st, fr, bi, states, c, n, it, fn_arg, fty, is_for_each)
     finally:
         E.ctx.max_parts = saved_parts
+
+
+def _for_each_fix(E, st, fr, bi, it, fn_arg, fty):
+    """for_each over an iterator of unknown or large length, as the loop it is: the state after any number of steps is
+    the least fixpoint of  S = S0 join step(S)  where a step applies the closure to an item at an arbitrary position
+    (writes through such an item are weak updates); widening after three rounds"""
+    from .absint import join_states, same_state, rename_bulk, gc_state
+    ctx = E.ctx
+    cur = st
+    tagk = (fr.id, ("foreach", bi))
+    with pinned(ctx, it, fn_arg):
+        for rnd in range(60):
+            nxt = cur
+            for item, _, s2 in it_next_abstract(E, cur, fr, bi, it):
+                if item is None:
+                    continue
+                with pinned(ctx, item):
+                    rs = call_closure(E, s2, fr, bi, fn_arg, fty, [item])
+                for _, s3 in rs:
+                    stale = {x: ctx.fresh() for x in s3.itv if type(x) is tuple and len(x) >= 2 and x[0] == "j" and x[1] == tagk}
+                    rename_bulk(s3, stale)
+                    nxt = join_states(ctx, nxt, s3, tagk, widen=rnd >= 3)
+            if nxt is cur or same_state(nxt, cur):
+                return [(UNIT, cur)]
+            cur = nxt
+    raise Unsupported("for_each: no fixpoint")
 
 
 def _fold_steps(E, st, fr, bi, states, c, n, it, fn_arg, fty, is_for_each):
@@ -1735,6 +1788,11 @@ def m_option_eq(E, st, fr, bi, callee, args, dest_ty):
     if r is not None and ne:
         r = not r
     return ret1(E.mkbool(st, None if r is None else int(r)), st)
+
+
+def m_option_from_residual(E, st, fr, bi, callee, args, dest_ty):
+    # `?` on an Option: the residual Option<Infallible> can only be None
+    return ret1(En({NONE: ()}), st)
 
 
 def m_int_abs(E, st, fr, bi, callee, args, dest_ty):
@@ -2147,6 +2205,7 @@ def build(ctx):
     A(r"^<.*Shake256ReaderCore> as sha3::digest::XofReader>::read$", m_xof_read)
     A(r"^std::boxed::Box::<\[.*\]>::new_uninit$", m_box_new_uninit)
     A(r"^std::boxed::Box::<.*>::new$", m_box_new)
+    A(r"^<std::option::Option<.*> as std::ops::FromResidual<std::option::Option<std::convert::Infallible>>>::from_residual$", m_option_from_residual)
     A(r"^<std::option::Option<(bool|[iu]\d+|usize|isize)> as std::cmp::PartialEq>::(eq|ne)$", m_option_eq)
     A(r"^std::boxed::box_assume_init_into_vec_unsafe::<", m_box_into_vec)
     A(r"^(core|std)::array::<impl \[.*\]>::map::<", m_array_map)
